@@ -26,7 +26,7 @@ var explainAddenda = map[string]string{
 	"C26": "(entry-size) the stop test's estimate is a linear expression Len + K + pad4(len(name)) whose constant covers the fixed bytes the loop appends per entry plus the bytes appended after the loop minus the status word, all sizes read from the reply trace (or the entry is measured by encoding it); (toosmall-edge) a NFS3ERR_TOOSMALL reply is reachable from the does-not-fit edge of the loop's stop test.",
 	"C27": "(truthful) a SET handler answers TRUE only on paths that passed RegisterService, an UNSET handler answers the result of UnregisterService; (mismatch-range) the PROG_MISMATCH arm of makeReply appends the two version words; (dump-live) every return of the two DUMP handlers has read the mapping table in that call.",
 	"C28": "(full-read, all-fragments) shared with C13: record marks are read completely and every fragment reaches the returned record; (advertised-port) every port registered with the portmapper by the server derives from ServerOptions.Port or a constant default.",
-	"C29": "(dedup-atomic, shared with C05) the check-then-insert of FileHandleMap.Allocate happens in one write-locked section.",
+	"C29": "(dedup-atomic, shared with C05) the check-then-insert of FileHandleMap.Allocate happens in one write-locked section; (own-listing) the listing ReadDirWithContext returns originates from a backend Readdir of this activation or from DirCache.Get, never from a result another request left in other shared storage (a coalesced listing can miss an entry whose creation was already acknowledged).",
 	"C30": "(floor) additionally every accepting return of Validate lies behind an edge that established MinVersion == 0, MinVersion >= TLS 1.2 or Enabled == false; (rotate-update) UpdatePolicyOptions keeps the previous TLSConfig when the update carries none and otherwise lets the new one take over the previous certificate cell; (no-static-cert) the tls.Config built by BuildConfig serves certificates only through GetCertificate.",
 }
 
